@@ -92,6 +92,11 @@ def _case(draw):
     case["_orientation"] = draw(st.sampled_from(["horizontal", "vertical"]))
     case["_via_std"] = gen.chance(draw, 1, 4)
     case["_stale_output"] = draw(st.booleans())
+    if gen.chance(draw, 1, 5):
+        # branch lengths in the Newick strings of the file (standard Newick; the tool reads names and topology)
+        for key in ("object_tree", "species_tree"):
+            case[key] = parse_newick(case[key]).to_newick(lengths=[1, 0.5, 2.25, 0, 10])
+        case["_lengths"] = True
     case["_omit_default_flags"] = draw(st.booleans())
     case["_decoy_file_costs"] = gen.chance(draw, 1, 4)
     if gen.chance(draw, 1, 8):
